@@ -11,6 +11,7 @@ import (
 	"os"
 	"sort"
 	"strings"
+	"time"
 	"unicode"
 
 	"golang.org/x/tools/go/ssa"
@@ -93,6 +94,9 @@ func traceWord(trace []string) string {
 var parserModelCache = map[*Prog]*parserModel{}
 
 // buildParserModel explores dependency.Parse.
+// tsBudget bounds the exploration of the parser's transition system; past it the rules fall back to bounded checks.
+const tsBudget = 120 * time.Second
+
 func buildParserModel(p *Prog) (*parserModel, string) {
 	if pm, ok := parserModelCache[p]; ok {
 		return pm, ""
@@ -356,11 +360,17 @@ func buildParserModel(p *Prog) (*parserModel, string) {
 	}
 	maxStates := 400000
 	deq := 0
+	started := time.Now()
 	for len(work) > 0 {
 		id := work[0]
 		work = work[1:]
 		if len(states) > maxStates {
 			pm.undec = append(pm.undec, fmt.Sprintf("state cap %d reached", maxStates))
+			break
+		}
+		if time.Since(started) > tsBudget {
+			// today's parser is explored in a few seconds (under 5 000 states)
+			pm.undec = append(pm.undec, fmt.Sprintf("exploration budget of %v used up at %d states", tsBudget, len(states)))
 			break
 		}
 		base := states[id]
